@@ -25,6 +25,7 @@
 //          its leader is a zombie (never seen stopped, cannot be attached)
 //   -V MS  one more thread that is, almost all the time, the parent of a vfork child living MS milliseconds: it cannot
 //          act on a stop request until the child is gone (slow to stop); listed as a thread with spin=2
+//   -L     place the shared page (register tables, counters) at the fixed low address 0x200000, below the executable
 //   -g     install a counting handler for SIGRTMIN+1 (per-thread counters in the shared page)
 //
 // Prints one JSON line describing itself, then "ready".
@@ -209,11 +210,15 @@ int main(int argc, char **argv) {
   long page = sysconf(_SC_PAGESIZE);
   for (int i = 0; i < MAXT; i++) name_len[i] = -1;
   for (int i = 0; i < 64; i++) dname_len[i] = -1;
-  sh = mmap(NULL, (sizeof(struct shared) + page - 1) & ~(page - 1), PROT_READ | PROT_WRITE, MAP_SHARED | MAP_ANONYMOUS, -1, 0);
+  int low_shared = 0;
+  for (int i = 1; i < argc; i++) if (!strcmp(argv[i], "-L")) low_shared = 1;
+  sh = mmap(low_shared ? (void *)0x200000 : NULL, (sizeof(struct shared) + page - 1) & ~(page - 1), PROT_READ | PROT_WRITE,
+            MAP_SHARED | MAP_ANONYMOUS | (low_shared ? MAP_FIXED : 0), -1, 0);
+  if (sh == MAP_FAILED) return 5;
   memset(sh, 0, sizeof *sh);
 
   int c;
-  while ((c = getopt(argc, argv, "t:s:n:o:S:r:m:M:F:d:gw:D:ZV:")) != -1) {
+  while ((c = getopt(argc, argv, "t:s:n:o:S:r:m:M:F:d:gw:D:ZV:L")) != -1) {
     switch (c) {
       case 't': nblock = atoi(optarg); break;
       case 's': nspin = atoi(optarg); break;
@@ -332,6 +337,7 @@ int main(int argc, char **argv) {
       case 'd': ndso = atoi(optarg); break;
       case 'g': want_sig = 1; break;
       case 'Z': leader_exits = 1; break;
+      case 'L': break;
       case 'V': vfork_ms = atoi(optarg); break;
       default: return 2;
     }
@@ -345,6 +351,10 @@ int main(int argc, char **argv) {
     sa.sa_handler = sig_handler;
     sa.sa_flags = SA_RESTART;
     sigaction(SIGRTMIN + 1, &sa, NULL);
+    // the same counting handler for ordinary signals (the harness sends each at most once per thread and dump:
+    // they do not queue)
+    int more[] = { SIGUSR1, SIGUSR2, SIGTRAP, SIGWINCH, SIGURG, SIGALRM, SIGVTALRM, SIGPROF, SIGIO, SIGHUP, SIGINT, SIGQUIT, SIGTERM, SIGPIPE, SIGRTMIN + 2 };
+    for (unsigned k = 0; k < sizeof more / sizeof more[0]; k++) sigaction(more[k], &sa, NULL);
   }
   int extra_fds[256];
   for (int i = 0; i < nfds && i < 256; i++) {
